@@ -12,8 +12,8 @@
             `TagNode.iterate_children`.
    Layer 3  the walks (Section Walk), written over the primitives only: iterate_children, __len__, __getitem__,
             first/last_child, index, fetch/iterate_*_sibling(s), the explicit-stack loop of iterate_descendants,
-            last_descendant, iterate_ancestors and depth (parents tested with `is not None`), _iterate_following (climb to an ancestor's sibling), _iterate_preceding (whose
-            decorator has no effect: it runs under the caller's ambient filter), full_text, the three traversers,
+            last_descendant, iterate_ancestors and depth (parents tested with `is not None`), _iterate_following (climb to an ancestor's sibling), _iterate_preceding (each
+            navigation step under `altered_default_filters()`: independent of the ambient filter), full_text, the three traversers,
             _sort_nodes_in_document_order.
    `D` is the ambient filter `default_filters[-1]` (as one predicate), `F` the filters passed by the caller.
    Every loop has explicit fuel; `OutOfFuel` is excluded by theorem in CNavFacts.v. *)
@@ -392,31 +392,32 @@ Section Walk.
   Definition w_iterate_following (fuel : nat) (D F : nfilter) (n : nid) : res (list nid) :=
     l <- fol_loop fuel D n ;; Ok (filter (fand D F) l).
 
-  (* _iterate_preceding (under the caller's ambient filter D), then iterate_preceding tests the passed filters only *)
+  (* _iterate_preceding: every navigation step runs inside `with altered_default_filters():`, so the walk sees all
+     nodes whatever the caller's ambient filter is; iterate_preceding then tests the passed filters only *)
   Definition concat_res (rec : nid -> res (list nid)) (post : bool) :=
     fix go (l : list nid) : res (list nid) :=
       match l with
       | [] => Ok []
       | c :: r => a <- rec c ;; b <- go r ;; Ok (if post then a ++ c :: b else a ++ b)
       end.
-  Fixpoint rev_sub (fuel : nat) (D : nfilter) (node : nid) : res (list nid) :=      (* iter_children(node) *)
+  Fixpoint rev_sub (fuel : nat) (node : nid) : res (list nid) :=      (* iter_children(node) *)
     match fuel with
     | O => OutOfFuel
-    | S f => kids <- w_iterate_children D ftrue node ;; concat_res (rev_sub f D) true (rev kids)
+    | S f => kids <- w_iterate_children ftrue ftrue node ;; concat_res (rev_sub f) true (rev kids)
     end.
-  Fixpoint prec_loop (fuel : nat) (D : nfilter) (pointer : nid) : res (list nid) :=
+  Fixpoint prec_loop (fuel : nat) (pointer : nid) : res (list nid) :=
     match fuel with
     | O => OutOfFuel
     | S f =>
-        p <- fetch_ps fc D pointer ;;
+        p <- fetch_ps fc (fand ftrue ftrue) pointer ;;
         match p with
-        | Some q => a <- rev_sub fc D q ;; r <- prec_loop f D q ;; Ok (a ++ q :: r)
+        | Some q => a <- rev_sub fc q ;; r <- prec_loop f q ;; Ok (a ++ q :: r)
         | None => up <- parent pointer ;;
-                  match up with None => Ok [] | Some u => r <- prec_loop f D u ;; Ok (u :: r) end
+                  match up with None => Ok [] | Some u => r <- prec_loop f u ;; Ok (u :: r) end
         end
     end.
-  Definition w_iterate_preceding (fuel : nat) (D F : nfilter) (n : nid) : res (list nid) :=
-    l <- prec_loop fuel D n ;; Ok (filter F l).
+  Definition w_iterate_preceding (fuel : nat) (F : nfilter) (n : nid) : res (list nid) :=
+    l <- prec_loop fuel n ;; Ok (filter F l).
 
   (* full_text *)
   Definition w_full_text (fuel : nat) (D : nfilter) (n : nid) : res str :=
@@ -499,7 +500,7 @@ Section OnHeap.
   Definition h_iterate_ancestors (D : nfilter) := w_iterate_ancestors PA fu.      (* D: not consulted *)
   Definition h_depth (D : nfilter) := w_depth PA TG TX fu.
   Definition h_iterate_following := w_iterate_following FR NX PA TG fu fu.
-  Definition h_iterate_preceding := w_iterate_preceding FR NX PV PA TG fu fu.
+  Definition h_iterate_preceding (D : nfilter) := w_iterate_preceding FR NX PV PA TG fu fu.     (* D: not consulted *)
   Definition h_full_text := w_full_text FR NX TG TX CT fu fu.
   Definition h_traverse_bf := w_traverse_bf FR NX TG fu fu.
   Definition h_traverse_df_btt := w_traverse_df_btt FR NX TG fu fu.
